@@ -42,7 +42,7 @@ def gen_call(ctx: Ctx, M):
         m_tasks = tasks
     a = rng.random()
     if a < 0.5:
-        agg = ("const", rng.sample(range(-6, 9), T))
+        agg = ("const" if rng.random() < 0.8 else "sub", rng.sample(range(-6, 9), T))       # "sub": a user subclass overriding forward
     elif a < 0.6:
         agg = ("sum",)
     elif a < 0.7 and T in (1, 2, 4):
@@ -69,7 +69,7 @@ def gen_call(ctx: Ctx, M):
             m_tasks = m_tasks + [list(M.task_leaves[j])]
         T += 1
         retain = True
-        agg = ("const", rng.sample(range(-6, 9), T)) if agg[0] in ("const", "probe", "mean") else agg
+        agg = ("const", rng.sample(range(-6, 9), T)) if agg[0] in ("const", "sub", "probe", "mean") else agg
         chunk = rng.choice([None, 1, 2, T])
     return dict(gen=gen, losses=losses, features=M.features, tasks=tasks, m_tasks=m_tasks, shared=shared,
                 m_shared=m_shared, agg=agg, chunk=chunk, retain=retain, pre=pre)
